@@ -97,3 +97,24 @@ func Harness_C06_invalids() {
 	zzsym.Assert(sameErrors(got.errs, want.Errors), "same multiset of errors on every schedule")
 	zzsym.Reach("c06.invalids")
 }
+
+// Harness_C06_listInvalids: every element of a list of non-null elements
+// fails in a non-null field (three elements, more than the worker slots of
+// the worker_limit configurations): on every schedule the list is null and
+// the errors of all three elements are reported.
+func Harness_C06_listInvalids() {
+	doc := mustLoad(`{ me { id friends { id boss { id } } } }`)
+	w := newWorld(0, false)
+	w.gated = true
+	w.outs["me/User.friends"] = ref.Out{List: users("me.friends[0]", "me.friends[1]", "me.friends[2]")}
+	w.outs["me.friends[0]/User.boss"] = ref.Out{K: ref.KError}
+	w.outs["me.friends[1]/User.boss"] = ref.Out{K: ref.KNull}
+	w.outs["me.friends[2]/User.boss"] = ref.Out{K: ref.KError}
+	op := doc.Operations[0]
+	got := runOp(w, doc, op, nil)
+	want := ref.Execute(pSchema, doc, op, nil, w)
+	zzsym.Event("errors", strings.Join(got.errs, " "))
+	zzsym.Assert(got.data == want.Data, "same data on every schedule")
+	zzsym.Assert(sameErrors(got.errs, want.Errors), "same multiset of errors on every schedule (one per failing element)")
+	zzsym.Reach("c06.listinvalids")
+}
